@@ -62,6 +62,14 @@ def handleTxt : List String → String
       | some l => "L " ++ enc l
       | none => "ERR"
     | _, _, _, _, _, _, _, _, _, _, _ => "bad-op"
+  | ["txt", "cryst1", a, b, c, al, be, ga] =>
+    match parseRat a, parseRat b, parseRat c, parseRat al, parseRat be, parseRat ga with
+    | some a, some b, some c, some al, some be, some ga => "L " ++ enc (cryst1Line a b c al be ga)
+    | _, _, _, _, _, _ => "bad-op"
+  | "txt" :: "grobox" :: rest =>
+    match rest.mapM parseRat with
+    | some vs => "L " ++ enc (groBoxLine vs)
+    | none => "bad-op"
   -- txt groline <p> <resSeq> <resName> <atomName> <serial> <x> <y> <z>
   | ["txt", "groline", ps, resseq, resn, name, serial, x, y, z] =>
     let hs := fun (h : String) => if h == "-" then some [] else (hexBytes h.toList).map (fun bs => bs.map Char.ofNat)
